@@ -696,10 +696,14 @@ fn exec_raw(ops: &Ops, c: &Case) {
 
 /// Run `f` on a thread created for it (no thread-local state left behind by anything else).
 fn on_fresh_thread<T: Send>(f: impl FnOnce() -> T + Send) -> T {
-    std::thread::scope(|s| s.spawn(f).join()).unwrap_or_else(|_| {
-        eprintln!("MACHINERY-FAILURE property=C06 engine=mint a harness thread panicked outside the code under test");
-        std::process::exit(2)
-    })
+    std::thread::scope(|s| s.spawn(f).join()).unwrap_or_else(|_| harness_thread_died())
+}
+
+/// Calls into the code under test are wrapped in `catch`, so a thread can only die of a harness bug.
+fn harness_thread_died() -> ! {
+    println!("MACHINERY-FAILURE property=C06 engine=mint a harness thread panicked outside the code under test");
+    eprintln!("MACHINERY-FAILURE property=C06 engine=mint a harness thread panicked outside the code under test");
+    std::process::exit(2)
 }
 
 /// In which order, and in which company, the cases of a modulus are executed.
@@ -961,13 +965,7 @@ fn enumerate_all() -> Enumerated {
         for p in parts {
             iso.merge(p); // ascending modulus order
         }
-        let chain = |h: std::thread::ScopedJoinHandle<Report>| {
-            h.join().unwrap_or_else(|_| {
-                eprintln!("MACHINERY-FAILURE property=C06 engine=mint a harness thread panicked outside the code under test");
-                std::process::exit(2)
-            })
-        };
-        (iso, chain(asc), chain(desc))
+        (iso, asc.join().unwrap_or_else(|_| harness_thread_died()), desc.join().unwrap_or_else(|_| harness_thread_died()))
     });
     let mut fails: BTreeMap<String, Failure> = BTreeMap::new();
     for r in [&isolated, &ascending, &descending] {
